@@ -2599,6 +2599,9 @@ def arg_val(target, arg, scope):
     """
     mode = scope[MIN_MODE]
     scope[MIN_MODE] = _ArgValuator().mode
-    result = scope[glom](target, arg, scope)
-    scope[MIN_MODE] = mode
+    try:
+        result = scope[glom](target, arg, scope)
+    finally:
+        # also when the argument fails: the frame may live on (e.g. an entry dropped by '*')
+        scope[MIN_MODE] = mode
     return result
